@@ -199,7 +199,13 @@ func (handler) HandleOperation(ctx context.Context, req kmip.OperationPayload) (
 		kmipserver.SetIdPlaceholder(ctx, "") // storing the empty placeholder is a store like any other
 		return &payloads.GetResponsePayload{UniqueIdentifier: pl.UniqueIdentifier}, nil
 	case "typedError":
-		return nil, kmipserver.ErrItemNotFound
+		// a typed error of the application: any reason of the enumeration (Item Not Found, Authentication Not Successful, ...); the
+		// message names the reason so that the projection can tell that it arrived unchanged
+		n := 1 + (sc.uid+i)%25
+		if (sc.uid+i)%3 == 0 {
+			return nil, kmipserver.ErrItemNotFound
+		}
+		return nil, kmipserver.Errorf(kmip.ResultReason(n), "typed:%d", n)
 	case "plainError":
 		return nil, errors.New("plain failure")
 	case "panic":
@@ -434,6 +440,15 @@ func project(req *kmip.RequestMessage, resp *kmip.ResponseMessage) ([]RespItem, 
 		rs, ok := reasonNames[bi.ResultReason]
 		if !ok {
 			rs = fmt.Sprintf("reason-%d", bi.ResultReason)
+		}
+		var tn int
+		if _, err := fmt.Sscanf(bi.ResultMessage, "typed:%d", &tn); err == nil && st == "Failed" {
+			// the scripted handler's typed error: the specification calls its reason "ItemNotFound", whichever of the enumeration it is
+			if int(bi.ResultReason) == tn {
+				rs = "ItemNotFound"
+			} else {
+				rs = fmt.Sprintf("typed-reason-%d-arrived-as-%d", tn, bi.ResultReason)
+			}
 		}
 		items = append(items, RespItem{Idx: idx, Status: st, Reason: rs})
 	}
